@@ -1,5 +1,6 @@
 // wC17 — file logger: whole lines in call order in the file named from id/oname/date,
-// suppression only inside the interval, rotation at the cycle after a date change, retention
+// suppression only inside the interval, rotation at the cycle after a date change (also after the
+// open of the new file had failed for a while), retention
 // of exactly the expired own dated files, read window = real bytes, no path outside logs.
 package main
 
